@@ -344,6 +344,15 @@ def check_direct_edges(ctx, rep):
     return n
 
 
+_SELECTING = ("Iterator::filter(", "Iterator::filter_map(", "Iterator::skip(", "Iterator::take(", "Iterator::skip_while(", "Iterator::take_while(",
+              "Iterator::step_by(", "Iterator::nth(", "Iterator::find(", "Iterator::last(", "Option::filter(")
+
+
+def _selects(txt):
+    """the described value passes through an adaptor that can leave elements out"""
+    return any(x in txt for x in _SELECTING)
+
+
 def _flat_map_union(prog, cs, ret):
     """the iterator spelling of `for d in defs { set.insert(d); set.extend(all_supertypes_of(d.def_symbol())) }`:
     defs.flat_map(|d| once(d).chain(self.all_supertypes_of(d.def_symbol()))) collected into a HashSet that `ret` is made from"""
@@ -388,7 +397,7 @@ def check_reflect(ctx, rep):
         x = c_ins[3][1]
         for c_sup in sup_all:
             if c_sup[3][0] == "_1*" and c_sup[3][1] == "haystack::defs::namespace::DefDict::def_symbol(%s)" % x:
-                if any(c_ins[3][0] == e[3][0] and "Namespace::all_supertypes_of(" in e[3][1] for e in ext_all):
+                if any(c_ins[3][0] == e[3][0] and "Namespace::all_supertypes_of(" in e[3][1] and not _selects(e[3][1]) for e in ext_all):
                     union_ok = True
     fb0 = prog.get(NS + "find_supertypes_from_defs")
     if not union_ok and mret and "Iterator::flat_map(" in mret.group(1):
@@ -458,7 +467,7 @@ def check_reflect(ctx, rep):
         ext2 = [c for c in cs2 if c[2].endswith("Extend>::extend")]
         ret2 = repr(G.describe_place(fb, {"l": 0, "p": []}))
         good = (len(ins2) == 1 and len(sup2) == 1 and len(ext2) == 1 and sup2[0][3][0] == "_1*" and sup2[0][3][1] == "haystack::defs::namespace::DefDict::def_symbol(%s)" % ins2[0][3][1]
-                and ins2[0][3][0] == ext2[0][3][0] and "Namespace::all_supertypes_of(" in ext2[0][3][1] and "Iterator::collect(" in ret2 and ins2[0][3][0] in ret2)
+                and ins2[0][3][0] == ext2[0][3][0] and "Namespace::all_supertypes_of(" in ext2[0][3][1] and not _selects(ext2[0][3][1]) and "Iterator::collect(" in ret2 and ins2[0][3][0] in ret2 and not _selects(ret2))
         if not good and _flat_map_union(prog, cs2, ret2):
             good = True
         if good:
